@@ -61,7 +61,8 @@ CHECKS["C09"] = dict(
           "over all six scenarios (single flight, no internal error, cache consistency, quiescent accounting, "
           "termination under fairness); real threads run on real backends under a deterministic scheduler "
           "(sys.settrace, cooperative locks): all schedules with <=1 preemption at line granularity in runner and cache "
-          "code plus random / sampled 2-preemption / 3-thread schedules; each execution is validated by TLC against "
+          "code plus park-until-the-other-caller-is-in-its-body schedules (two preemptions placed by what happens; the factory of the "
+          "per-call lock table is a decision point) plus random / sampled 2-preemption / 3-thread schedules; each execution is validated by TLC against "
           "the SingleFlight monitor (TraceSingleFlight). A long-body scenario (140 other invocations while the first caller's "
           "invocation is in progress) covers lock-table and cache churn under an open invocation. Mechanism-level binding: executions of the "
           "leaf-call scenarios recorded at the backend calls and the per-call mutex (and the final cache of the real object) are validated as "
@@ -77,7 +78,8 @@ CHECKS["C08"] = dict(
           "that abandon memoize, and the recovery reads of up to 4 later calls of two functions sharing a content key; TLC checks "
           "Recovers / NeverRaises / PointerImpliesObject / NoPoisonedMemento exhaustively (and finds the pinned-commit defect with "
           "FixedReader=FALSE and the raising call of the LinkBeforeClose design variant). On the real code every mutating "
-          "filesystem operation of seven scenarios is hit with every fault variant in two file modes (write-through: faults at "
+          "filesystem operation of seven scenarios is hit with every fault variant (crashes once in-process and once as a real death "
+          "of a forked process by os._exit, follow-up calls in a new process) in two file modes (write-through: faults at "
           "write(); buffered: faults at close()), truncation after 1/2, 3/4, all-but-one byte (single faults exhaustive, double "
           "faults sampled in quick and exhaustive in thorough), the process is 'restarted', follow-up calls and a whole-store "
           "content-key scan are validated by TLC against CrashSafeMon, and the recorded file-system steps of the runs of f / g are "
